@@ -34,23 +34,28 @@ CHECKS = {
     "C13": ("static", "6 C13", "attribute placements over item/handler/helper/parameters for the three macros plus every annotated item of the "
             "repository's tests and examples; re-emitted item vs input skeleton and determinism (in-process and across processes) judged by TLC",
             "TLA+ spec + TLC, in-process expansion of generated and real sources, trace validation"),
-    "C15": ("static", "6 C15", "all assignments of type-parameter occurrence shapes to handler arguments and query responses; parameter lists and bounds "
-            "of the generated message types judged by TLC against Used/KeptWheres",
+    "C15": ("static", "6 C15", "all assignments of type-parameter occurrence shapes to handler arguments and query responses of a generic contract, and of "
+            "associated-type occurrences of an interface (types declared at the top of the trait or after the first / second method, bounded and unbounded); "
+            "parameter lists and bounds of the generated message types judged by TLC against Used/KeptWheres",
             "TLA+ spec + TLC (exhaustive small scope), in-process expansion, trace validation"),
     "C17": ("static", "6 C17", "all ordered pairs of forwarding sites (type of a kind, handler variant, handler argument) with distinguishable marker "
-            "attributes (plain, and wrapped in cfg_attr on arguments) for contracts and interfaces; occurrences of each marker judged by TLC; effect: "
+            "attributes (plain, and wrapped in cfg_attr on arguments) for contracts and interfaces, two markers on one and the same variant / field; occurrences of each marker judged by TLC; effect: "
             "program A1 of the compiled routing corpus (arguments with a forwarded serde(default)): documents leaving them out are accepted through "
             "both paths and the handler is handed the default",
             "TLA+ spec + TLC (exhaustive small scope), in-process expansion, compiled corpus, trace validation"),
     "C07": ("reply", "6 C07", "ReplyRT.tla (build -> outcome -> dispatch) model-checked over the compiled reply tables; every reply "
             "(handler incl. unknown id x outcome x events x data class) dispatched by the real sv::dispatch_reply, reply entry point and multitest impl; "
-            "routing, context, second parameter and pass-through arms judged by TLC (Trace_Reply)",
+            "routing, context, second parameter and pass-through arms judged by TLC (Trace_Reply); Chain.tla (transaction -> generated builder -> target -> "
+            "the chain's decision to reply -> generated dispatcher -> commit / roll back) model-checked over the same tables and every "
+            "(handler name x target kind x target behaviour) transaction run on a cw-multi-test chain with each compiled program as the caller (Trace_Chain)",
             "TLA+ spec + TLC, compiled reply corpus, trace validation"),
     "C08": ("reply", "6 C08", "ids, reply_on, kept message/gas limit, payload encoding of every generated builder over 5 receiver classes and the "
-            "end-to-end delivery of payload values judged by TLC against Reply.tla",
+            "end-to-end delivery of payload values judged by TLC against Reply.tla; on the chain corpus (Chain.tla) the trigger is consumed by cw-multi-test: "
+            "a reply arrives exactly for the outcomes the table covers, with the payload the builder was given",
             "TLA+ spec + TLC, compiled reply corpus, trace validation"),
     "C09": ("reply", "6 C09", "7 data modes x 6 data classes through the real dispatcher; extraction outcome and decoded value judged by TLC "
-            "against Reply!Extract (with the documented nondeterminism)",
+            "against Reply!Extract (with the documented nondeterminism); on the chain corpus the data arrives in the envelopes cw-multi-test makes "
+            "(execute / instantiate responses, data longer than 127 bytes, present-but-empty data) and a data error fails the transaction",
             "TLA+ spec + TLC, compiled reply corpus, trace validation"),
     "C14": ("reply+routing+static", "6 C14", "TLC proves order independence of the specification's observable reply table over all permutations; "
             "all permutations of all small tables expanded in-process; declaration-order twins of reply and routing programs compiled and required "
@@ -63,7 +68,7 @@ CHECKS = {
             "querier, instantiate-builder and admin helpers of every exec/query method of the corpus recorded (RemoteMsg) and their bodies delivered to "
             "the target's real entry points; TLC judges address, funds, kind, body and the flight",
             "TLA+ spec + TLC, compiled corpus, trace validation of RemoteMsg events and the flights they cause"),
-    "C11": ("bridge", "6 C11", "Bridge.tla model-checked over all responses with <= MaxMsgs sub-messages x kinds x profiles x attributes x events x data; "
+    "C11": ("bridge", "6 C11", "Bridge.tla model-checked over all responses with <= MaxMsgs sub-messages x kinds x profiles x attributes x events x data (absent / present-but-empty / one zero byte / bytes); "
             "every one replayed into the real IntoResponse and (every third) through a custom-typed contract's entry points; TLC judges verdict, "
             "field-wise identity and the context the bridged handler saw",
             "TLA+ spec + TLC (exhaustive small scope), replay of TLC-enumerated responses, trace validation"),
@@ -78,7 +83,8 @@ CHECKS = {
             "operation histories; each history applied through the generated proxies to one chain and as raw JSON to an identically seeded twin; "
             "after every operation views and results of both chains are judged by TLC against each other and against the machine",
             "TLA+ spec + TLC simulation, twin-chain replay, trace validation (Trace_Multitest)"),
-    "C16": ("routing", "6 C16", "query handlers with two response types (a quarter via resp= and an aliased result); response_schemas() of every part and "
+    "C16": ("routing", "6 C16", "query handlers with six response types (two structs, a one-element tuple, a pair, a vector of one-element tuples, an array; "
+            "a quarter via resp= and an aliased result); response_schemas() of every part and "
             "of the contract-level message compared by TLC with the specification's table, any-of arity with the number of parts",
             "TLA+ spec + TLC, compiled corpus, trace validation of Schemas events"),
 }
